@@ -102,9 +102,10 @@ func VerifParse(symbolTypes SymbolTypes, query string) (Query, error) {
 	if verifTraceFor == nil {
 		verifrt.Outside("no parse traces generated")
 	}
-	if !verifrt.IsConcrete(query) {
-		// a query assembled from data: match it against the registered
-		// templates (the text around the literal is concrete)
+	if _, _, recorded := verifTraceFor(verifConcreteOrEmpty(query)); !verifrt.IsConcrete(query) || !recorded {
+		// a query assembled from data (or a concrete instance of a template
+		// that has no recorded trace of its own): match it against the
+		// registered templates (the text around the literal is concrete)
 		// longest literal context first: a shorter template's context may be a
 		// prefix of a longer one's
 		for _, t := range verifTemplatesByContext() {
@@ -120,7 +121,9 @@ func VerifParse(symbolTypes SymbolTypes, query string) (Query, error) {
 				return VerifParseTemplate(symbolTypes, t, body)
 			}
 		}
-		verifrt.Outside("data-dependent query string that matches no registered template")
+		if !verifrt.IsConcrete(query) {
+			verifrt.Outside("data-dependent query string that matches no registered template")
+		}
 	}
 	events, perr, ok := verifTraceFor(query)
 	if !ok {
@@ -150,6 +153,13 @@ func VerifParseTemplate(symbolTypes SymbolTypes, template string, body string) (
 // VerifTemplates: queries with one placeholder literal, e.g.
 // `boss = "__VERIF_LIT__"`, for query strings the code assembles from data.
 var VerifTemplates []string
+
+func verifConcreteOrEmpty(q string) string {
+	if verifrt.IsConcrete(q) {
+		return q
+	}
+	return ""
+}
 
 func verifTemplatesByContext() []string {
 	ts := append([]string{}, VerifTemplates...)
